@@ -2,6 +2,8 @@
 import json
 import os
 
+import re
+
 from gsa import e1, facts, ir, paths
 from gsa.facts import Unit, rel, AnalysisBroken
 from gsa.report import Check
@@ -15,6 +17,8 @@ UNITS = [
     Unit('mx_inst', 'matrix_inst.cpp', ['src/Persistence_matrix/include/gudhi/Matrix.h'], fn=['insert_boundary']),
     # option grid with and without removable columns: class records with canonical member types and copy members
     Unit('mx_cls', 'matrix_cls.cpp', ['src/Persistence_matrix/include']),
+    # the reader behind operator>>(istream, Simplex_tree)
+    Unit('st_io', 'simplex_tree_pat.cpp', ['src/common/include/gudhi/reader_utils.h'], no_inst=True, fn=['read_simplex']),
 ]
 
 
@@ -227,6 +231,351 @@ def run_static_state(chk, F):
                'mutable state of static storage duration (not const, not thread_local): independent objects used '
                'from different threads race on it')), key='E6a|%s' % v['qual'])
     chk.expect_count('E6a-static-state', 'non-const static-duration variables', n, 8)
+
+
+def _parse_bool(text):
+    """tiny parser of an option condition `A && !B || (C)` -> nested tuples over atom names (last path component)"""
+    toks = re.findall(r'&&|\|\||!|\(|\)|[A-Za-z_][\w:<>]*', text)
+    pos = [0]
+
+    def atom():
+        t = toks[pos[0]]
+        pos[0] += 1
+        if t == '(':
+            r = orx()
+            pos[0] += 1          # ')'
+            return r
+        if t == '!':
+            return ('not', atom())
+        return ('atom', t.split('::')[-1])
+
+    def andx():
+        r = atom()
+        while pos[0] < len(toks) and toks[pos[0]] == '&&':
+            pos[0] += 1
+            r = ('and', r, atom())
+        return r
+
+    def orx():
+        r = andx()
+        while pos[0] < len(toks) and toks[pos[0]] == '||':
+            pos[0] += 1
+            r = ('or', r, andx())
+        return r
+    r = orx()
+    if pos[0] != len(toks):
+        raise AnalysisBroken('C15: cannot parse the option condition `%s`' % text)
+    return r
+
+
+def _bool_of_ir(e):
+    e = ir.skipcasts(e)
+    k = e.get('k')
+    if k == 'ParenExpr':
+        return _bool_of_ir(e['c'][0])
+    if k == 'UnaryOperator' and e.get('op') == '!':
+        return ('not', _bool_of_ir(e['c'][0]))
+    if k == 'BinaryOperator' and e.get('op') in ('&&', '||'):
+        return ('and' if e['op'] == '&&' else 'or', _bool_of_ir(e['c'][0]), _bool_of_ir(e['c'][1]))
+    t = ir.show(e).replace(' ', '')
+    if re.fullmatch(r'[\w:<>]+', t):
+        return ('atom', t.split('::')[-1])
+    raise AnalysisBroken('C15: guard of a conditional base is not an option formula: %s' % t[:80])
+
+
+def _atoms_of(f, out):
+    if f[0] == 'atom':
+        out.add(f[1])
+    else:
+        for x in f[1:]:
+            _atoms_of(x, out)
+    return out
+
+
+def _eval_bool(f, val):
+    if f[0] == 'atom':
+        return val[f[1]]
+    if f[0] == 'not':
+        return not _eval_bool(f[1], val)
+    if f[0] == 'and':
+        return _eval_bool(f[1], val) and _eval_bool(f[2], val)
+    return _eval_bool(f[1], val) or _eval_bool(f[2], val)
+
+
+MATRIX_LEVEL = ('Matrix', 'Base_matrix', 'Base_matrix_with_column_compression', 'Boundary_matrix', 'RU_matrix',
+                'Chain_matrix', 'Id_to_index_overlay', 'Position_to_index_overlay', 'Matrix_row_access', 'Base_swap',
+                'Base_pairing', 'RU_pairing', 'Chain_pairing', 'RU_vine_swap', 'Chain_vine_swap', 'Chain_barcode_swap',
+                'RU_representative_cycles', 'Chain_representative_cycles', 'Matrix_max_dimension_holder',
+                'Matrix_all_dimension_holder', 'Cell_position_to_ID_mapper')
+SCALAR_T = re.compile(r'(bool|int|unsigned int|Dimension|(\w+::)*(Index|Pos_index|ID_index))$')
+
+
+def _init_of(f, member):
+    for i in f.get('inits') or []:
+        if isinstance(i, dict) and i.get('member') == member and i.get('written'):
+            return i.get('init')
+    return None
+
+
+def _mentions_other_field(e, other, field):
+    return e is not None and ir.contains(e, lambda y: y.get('k') in ir.MEMBER_KINDS and y.get('n') == field and
+                                         y.get('c') and (ir.skipcasts(y['c'][0]) or {}).get('n') == other)
+
+
+def run_moved_from(chk, F):
+    """"a moved-from object is empty and usable again", on the matrix-level classes (pattern level):
+    E1m-pointer: a pointer member the move constructor takes away from the source (`std::exchange(other.p, nullptr)`)
+    is given back a target in the same constructor (`other.p = ..` / `other.p.reset(..)`), or the class re-establishes
+    it in `reset(..)` and Matrix's move constructor calls `reset` on the source's part;
+    E1m-state: every scalar state member (flags, counters) is re-initialised in the source (`std::exchange(other.f, v)`
+    or an assignment) - an implicit move constructor copies it and the source keeps believing e.g. that its barcode
+    is computed;
+    E1m-self: a pointer member that designates a member of the same object (assigned `&member..` in a constructor) is
+    re-pointed by the move constructor under the same option condition, not taken from the source."""
+    classes = {}
+    for c in F.classes:
+        if c.get('inst') == 0 and c['name'] in MATRIX_LEVEL and c['name'] not in classes and \
+                'Persistence_matrix' in c['file'] or (c.get('inst') == 0 and c['name'] == 'Matrix' and
+                                                        c['file'].endswith('Matrix.h') and c['name'] not in classes):
+            classes[c['name']] = c
+    if len(classes) < 15:
+        raise AnalysisBroken('C15: matrix-level classes not found (%d)' % len(classes))
+    fns = {}
+    for f in F.functions:
+        if f.get('inst') == 0 and f.get('clsname') in classes and f['file'] == classes[f['clsname']]['file']:
+            fns.setdefault(f['clsname'], []).append(f)
+    # does Matrix's move constructor reset the parts of the source?
+    mm = [f for f in fns.get('Matrix', []) if f['kind'] == 'move_ctor']
+    owner_resets = bool(mm) and mm[0].get('body') is not None and ir.contains(
+        mm[0]['body'], lambda y: ir.is_call(y) and ir.call_name(y) == 'reset' and 'other' in ir.show(y))
+    n_ptr = n_sc = n_self = 0
+    for cname, c in sorted(classes.items()):
+        mv = [f for f in fns.get(cname, []) if f['kind'] == 'move_ctor']
+        scalars = [fl for fl in c.get('fields', []) if SCALAR_T.search((fl.get('t') or '').replace('const ', ''))]
+        pointers = [fl for fl in c.get('fields', []) if (fl.get('t') or '').rstrip().endswith('*') or
+                    'unique_ptr' in (fl.get('t') or '')]
+        where = '%s:%d' % (rel(c['file']), c['line'])
+        declared = [m for m in c.get('methods', []) if m.get('kind') == 'move_ctor']
+        if not mv or mv[0].get('body') is None:
+            # implicit / defaulted move constructor: member-wise move, scalars are copied
+            if declared and not declared[0].get('defaulted'):
+                continue                      # declared, defined elsewhere: not seen in this unit
+            for fl in scalars:
+                n_sc += 1
+                chk.ob('E1m-state', '%s: the move constructor re-initialises `%s` in the source' % (cname, fl['n']),
+                       where, False, 'the class has no move constructor of its own: `%s` is copied and the moved-from '
+                       'object keeps its value (state of an object that is otherwise emptied)' % fl['n'],
+                       key='E1m|%s|state|%s' % (cname, fl['n']))
+            continue
+        f = mv[0]
+        other = f['params'][0]['n'] if f.get('params') else 'other'
+        where = '%s:%d' % (rel(f['file']), f['line'])
+        body = f['body']
+        resets = [r for r in fns.get(cname, []) if r['name'] == 'reset' and r.get('body') is not None]
+        for fl in pointers:
+            init = _init_of(f, fl['n'])
+            taken = init is not None and ir.contains(init, lambda y: y.get('k') == 'CXXNullPtrLiteralExpr') and \
+                _mentions_other_field(init, other, fl['n'])
+            if not taken:
+                continue
+            n_ptr += 1
+            given = ir.contains(body, lambda y: (ir.write_target(y) is not None and y.get('op') == '=' and
+                                                 _mentions_other_field(ir.write_target(y), other, fl['n'])) or
+                                (ir.is_call(y) and ir.call_name(y) == 'reset' and
+                                 _mentions_other_field(ir.call_receiver(y), other, fl['n'])))
+            via_reset = owner_resets and any(ir.contains(r['body'], lambda y: ir.write_target(y) is not None and
+                                                         ir.show(ir.write_target(y)) == fl['n']) for r in resets)
+            ok = given or via_reset
+            chk.ob('E1m-pointer', '%s: the pointer `%s` taken from the moved-from object is given a target again (%s)'
+                   % (cname, fl['n'], 'in the constructor' if given else 'by reset(), called by Matrix on the source'
+                      if via_reset else 'nowhere'), where, ok, '' if ok else '`%s` of the source stays null: the first '
+                   'operation on the moved-from matrix dereferences it' % fl['n'],
+                   key='E1m|%s|pointer|%s' % (cname, fl['n']))
+        for fl in scalars:
+            n_sc += 1
+            init = _init_of(f, fl['n'])
+            ok = (init is not None and ir.contains(init, lambda y: ir.is_call(y) and ir.call_name(y) == 'exchange') and
+                  _mentions_other_field(init, other, fl['n'])) or ir.contains(
+                body, lambda y: ir.write_target(y) is not None and _mentions_other_field(ir.write_target(y), other,
+                                                                                        fl['n']))
+            chk.ob('E1m-state', '%s: the move constructor re-initialises `%s` in the source' % (cname, fl['n']),
+                   where, ok, '' if ok else '`%s` keeps its value in the moved-from object' % fl['n'],
+                   key='E1m|%s|state|%s' % (cname, fl['n']))
+        # self-referential pointers
+        for fl in pointers:
+            ctx = None
+            for g in fns.get(cname, []):
+                if g['kind'] not in ('ctor', 'copy_ctor', 'default_ctor') or g.get('body') is None:
+                    continue
+                par = ir.parents(g['body'])
+                for y in ir.walk(g['body']):
+                    t = ir.write_target(y)
+                    if t is None or y.get('op') != '=' or ir.show(t) != fl['n']:
+                        continue
+                    r = ir.skipcasts(y['c'][1])
+                    if r is None or r.get('k') != 'UnaryOperator' or r.get('op') != '&':
+                        continue
+                    root = ir.skipcasts(r['c'][0])
+                    while root is not None and root.get('k') in ir.MEMBER_KINDS and root.get('c') and \
+                            (ir.skipcasts(root['c'][0]) or {}).get('k') != 'CXXThisExpr':
+                        root = ir.skipcasts(root['c'][0])       # the object the address is taken in
+                    own = {x['n'] for x in c.get('fields', [])}
+                    if root is None or root.get('k') not in ir.MEMBER_KINDS or root.get('n') not in own:
+                        continue                                 # address of something outside the object
+                    conds = []
+                    cur = y
+                    while id(cur) in par:
+                        up = par[id(cur)]
+                        if up.get('k') == 'IfStmt' and up.get('constexpr'):
+                            conds.append((ir.show(up.get('cond')).replace(' ', ''), cur is up.get('then')))
+                        cur = up
+                    ctx = (ir.show(r).replace(' ', ''), tuple(conds))
+            if ctx is None:
+                continue
+            n_self += 1
+            par = ir.parents(body)
+            ok = False
+            for y in ir.walk(body):
+                t = ir.write_target(y)
+                if t is None or y.get('op') != '=' or ir.show(t) != fl['n']:
+                    continue
+                if ir.show(y['c'][1]).replace(' ', '') != ctx[0]:
+                    continue
+                conds = []
+                cur = y
+                while id(cur) in par:
+                    up = par[id(cur)]
+                    if up.get('k') == 'IfStmt' and up.get('constexpr'):
+                        conds.append((ir.show(up.get('cond')).replace(' ', ''), cur is up.get('then')))
+                    cur = up
+                if tuple(conds) == ctx[1]:
+                    ok = True
+            chk.ob('E1m-self', '%s: `%s` designates a member of the same object (%s): the move constructor points it '
+                   'to the new object\'s own member' % (cname, fl['n'], ctx[0]), where, ok, '' if ok else
+                   '`%s` is taken from the source as it is: the new object keeps a pointer into the object it was '
+                   'moved from' % fl['n'], key='E1m|%s|self|%s' % (cname, fl['n']))
+    chk.expect_count('E1m-pointer', 'pointers taken by move constructors', n_ptr, 6)
+    chk.expect_count('E1m-state', 'scalar state members', n_sc, 8)
+    chk.expect_count('E1m-self', 'self-referential pointer members', n_self, 1)
+
+
+def run_text_roundtrip(chk, F):
+    """E5t-text: "re-reading its text output rebuilds an equal tree": two necessary conditions on the writer / reader
+    pair. The writer inserts floating-point filtration values only after giving the stream a precision of
+    max_digits10 (the default 6 digits round); the reader does not extract a floating-point filtration value with
+    operator>> (which cannot read the "inf" the writer prints): it converts a word with strto*, in the floating-point
+    arm at least."""
+    ws = [f for f in F.functions if f['name'] == 'operator<<' and f.get('body') is not None and
+          f['file'].endswith('Simplex_tree.h') and any('Simplex_tree' in (p_.get('t') or '') for p_ in f.get('params', []))
+          and f.get('inst') in (0, 2)]
+    rs = [f for f in F.functions if f['name'] == 'read_simplex' and f.get('body') is not None and f.get('inst') in (0, 2)]
+    if not ws or not rs:
+        raise AnalysisBroken('C15: text writer / reader of the simplex tree not found (%d, %d)' % (len(ws), len(rs)))
+    w, r = ws[0], rs[0]
+    order = {id(x): i for i, x in enumerate(ir.walk(w['body']))}
+    ins = [x for x in ir.walk(w['body']) if x.get('k') in ('CXXOperatorCallExpr', 'BinaryOperator') and
+           x.get('op') == '<<' and 'filtration(' in ir.show(x)]
+    prec = [x for x in ir.walk(w['body']) if 'max_digits10' in ir.show(x) and (
+        (ir.is_call(x) and ir.call_name(x) in ('precision', 'setprecision')))]
+    ok = bool(ins) and bool(prec) and min(order[id(x)] for x in prec) < min(order[id(x)] for x in ins)
+    chk.ob('E5t-text', 'operator<<(ostream, Simplex_tree) writes the filtration values with max_digits10 digits',
+           '%s:%d' % (rel(w['file']), w['line']), ok, '' if ok else 'no precision of max_digits10 is set before the '
+           'values are inserted: with the default 6 significant digits the re-read values differ',
+           key='E5t|operator<<|precision')
+    par = ir.parents(r['body'])
+    fil = r['params'][2]['n'] if len(r.get('params', [])) == 3 else 'fil'
+    bad = None
+    for x in ir.walk(r['body']):
+        if x.get('k') in ('CXXOperatorCallExpr', 'BinaryOperator') and x.get('op') == '>>':
+            ab = x['c'] if x['k'] == 'BinaryOperator' else ir.call_args(x)
+            if len(ab) == 2 and ir.show(ab[1]) == fil:
+                guarded = False
+                cur = x
+                while id(cur) in par:
+                    up = par[id(cur)]
+                    if up.get('k') == 'IfStmt' and up.get('constexpr') and 'is_floating_point' in ir.show(
+                            up.get('cond')) and cur is up.get('else'):
+                        guarded = True
+                    cur = up
+                if not guarded:
+                    bad = x
+    conv = ir.contains(r['body'], lambda y: ir.is_call(y) and ir.call_name(y) in ('strtod', 'strtold', 'strtof',
+                                                                                   'stod', 'stold', 'from_chars'))
+    ok = bad is None and conv
+    chk.ob('E5t-text', 'read_simplex converts the filtration value from a word (reads "inf") for floating-point types',
+           '%s:%d' % (rel(r['file']), r['line']), ok, '' if ok else 'the value is extracted with operator>>, which '
+           'fails on the "inf" the writer prints: reading stops at the first infinite value',
+           key='E5t|read_simplex|inf')
+
+
+def run_conditional_bases(chk, F):
+    """E1-conditional-base: option-dependent parts are bases of the form std::conditional<C, A, B>::type. Wherever a
+    member function (swap, assignment, constructors) treats the object as one of the two alternatives
+    (`static_cast<A&>(x)`) under an `if` on the options, the guard is logically equivalent to the condition under
+    which that alternative *is* the base (C for A, !C for B), on every valuation of the option constants involved -
+    a weaker guard skips the part in some option sets (the swapped / assigned object keeps its old part), a stronger
+    one touches a part that is not there."""
+    n = 0
+    for c in F.classes:
+        if c.get('inst') != 0:
+            continue
+        alts = []
+        for b in c.get('bases', []):
+            m = re.match(r'(?:typename )?std::conditional<(.*)>::type$', (b.get('t') or '').strip())
+            if not m:
+                continue
+            # split the three template arguments at top-level commas
+            args, depth, cur = [], 0, ''
+            for ch in m.group(1):
+                if ch == '<' or ch == '(':
+                    depth += 1
+                elif ch == '>' or ch == ')':
+                    depth -= 1
+                if ch == ',' and depth == 0:
+                    args.append(cur.strip())
+                    cur = ''
+                else:
+                    cur += ch
+            args.append(cur.strip())
+            if len(args) != 3:
+                continue
+            cond = _parse_bool(args[0])
+            alts.append((args[1].split('<')[0].split('::')[-1], cond))
+            alts.append((args[2].split('<')[0].split('::')[-1], ('not', cond)))
+        if not alts:
+            continue
+        for f in F.functions:
+            if f.get('inst') != 0 or f.get('body') is None:
+                continue
+            owner = f.get('cls') or f.get('friendof') or ''
+            if owner.split('::')[-1] != c['name'] or f['file'] != c['file']:
+                continue
+            for x in ir.walk(f['body']):
+                if x.get('k') != 'IfStmt':
+                    continue
+                casts = {(y.get('t') or '').split('<')[0].split('::')[-1] for y in ir.walk(x.get('then'))
+                         if y.get('k') == 'CXXStaticCastExpr'}
+                for name, exists in alts:
+                    if name not in casts or name.startswith('Dummy'):
+                        continue
+                    n += 1
+                    guard = _bool_of_ir(x.get('cond'))
+                    atoms = sorted(_atoms_of(guard, set()) | _atoms_of(exists, set()))
+                    bad = None
+                    for mbits in range(1 << len(atoms)):
+                        val = {a_: (mbits >> i) & 1 == 1 for i, a_ in enumerate(atoms)}
+                        if _eval_bool(guard, val) != _eval_bool(exists, val) and bad is None:
+                            bad = val
+                    chk.ob('E1-conditional-base', '%s::%s treats the object as %s exactly in the option sets in which %s '
+                           'is its base' % (c['name'], f['name'], name, name), '%s:%s' % (rel(f['file']), x.get('l')),
+                           bad is None, '' if bad is None else 'for %s the guard `%s` is %s but %s %s the base: the part '
+                           'is %s' % (', '.join('%s=%s' % (k_, 'true' if v_ else 'false') for k_, v_ in bad.items()),
+                                      ir.show(x.get('cond'))[:90], _eval_bool(guard, bad), name,
+                                      'is' if _eval_bool(exists, bad) else 'is not',
+                                      'skipped (the object keeps its old one)' if _eval_bool(exists, bad) else
+                                      'touched although it is not there'),
+                           key='E1cb|%s::%s|%s' % (c['name'], f['name'], name))
+    chk.expect_count('E1-conditional-base', 'guarded uses of a conditional base', n, 4)
 
 
 def run_settings_alias(chk, F):
@@ -631,6 +980,9 @@ def run(tier, replay=None):
     run_moved_from_cache(chk, F)
     run_settings_forwarding(chk, F)
     run_settings_alias(chk, F)
+    run_conditional_bases(chk, F)
+    run_text_roundtrip(chk, F)
+    run_moved_from(chk, F)
     # deserialisation rebuilds the dimension bound of the tree it creates (shared rule C01/R3b)
     from rules import c01, c03
     from gsa import summary
